@@ -93,6 +93,13 @@ claim("C13", "model-based property testing of 2FA-settings histories (rapid): ev
       "the mailbox shows was mailed to the account for that session, and a completed enrolment spends it.",
       TRUST)
 
+claim("C14", "model-based property testing of OAuth2 start/callback interleavings (rapid) + round-trip/injectivity PBT and native fuzz on the PID codec",
+      WM + "oauth2 machine: 1-3 providers, 2-3 browsers, start and callback requests interleaved across browsers and providers; states own / other browser's / previous / empty / mutated / random; good and bad codes, provider errors; "
+      "provider-returned uids empty, with ';' and ';;', non-ASCII, 400 bytes. Oracle: a callback may log in only if the session's held state equals the submitted one, there is no provider error and exchange+details succeed - then the session "
+      "identifies exactly MakeOAuth2PID(provider, reported uid) and storage holds that pair; every other callback leaves the session user and every user record equal; a matched state is spent when the response is written. "
+      "Codec: distinct (provider, uid) pairs give distinct PIDs and Parse(Make(p,u)) == (p,u) whenever parsing succeeds.",
+      TRUST)
+
 NOT_YET = "check not built yet in this round (claimed in DESIGN.md; will be claimed once its check is committed)"
 
 def main():
